@@ -463,9 +463,111 @@ def spec_bytes(method):
     return Spec("AnyVec::" + method, "src/any_vec.rs", method, ["C12"], assume, on_return, on_panic, "offset/length arithmetic of the byte views")
 
 
+def spec_iter_step(method):
+    def assume(ex, p):
+        idx = sym(ex, p, "O:arg1", (1,))
+        end = sym(ex, p, "O:arg1", (2,))
+        return [("cursor invariant index <= end", "(bvule %s %s)" % (idx, end))]
+
+    def on_return(ex, p):
+        idx = sym(ex, p, "O:arg1", (1,))
+        end = sym(ex, p, "O:arg1", (2,))
+        d = ex.read_cell(p, "L:_0", ("discr",), "isize")[1]
+        fetch = [e for e in p.events if e[0] == "element_ptr_at"]
+        idx2 = ex.read_cell(p, "O:arg1", (1,), "usize")[1]
+        end2 = ex.read_cell(p, "O:arg1", (2,), "usize")[1]
+        obs = [("None exactly when the cursors meet (fused)", "(= (= %s %s) (= %s %s))" % (d, bvconst(0), idx, end))]
+        if fetch:
+            at = ex.as_bv(fetch[0][2][1])[1]
+            if method == "next":
+                obs.append(("next() fetches the element at the front cursor and advances it by one", AND("(= %s %s)" % (at, idx), "(= %s (bvadd %s %s))" % (idx2, idx, bvconst(1)), "(= %s %s)" % (end2, end), "(bvule %s %s)" % (idx2, end2))))
+            else:
+                obs.append(("next_back() lowers the back cursor by one and fetches the element there", AND("(= %s (bvsub %s %s))" % (at, end, bvconst(1)), "(= %s (bvsub %s %s))" % (end2, end, bvconst(1)), "(= %s %s)" % (idx2, idx), "(bvule %s %s)" % (idx2, end2))))
+            obs.append(("exactly one element is fetched", "true" if len(fetch) == 1 else "false"))
+        else:
+            obs.append(("cursors unchanged when nothing is yielded", AND("(= %s %s)" % (idx2, idx), "(= %s %s)" % (end2, end))))
+        return obs
+
+    def on_panic(ex, p):
+        return [("never panics under the cursor invariant", "false")]
+    return Spec("Iter::" + method, "src/iter.rs", method, ["C14"], assume, on_return, on_panic, "one step of the double-ended cursor pair")
+
+
+def spec_drain_drop():
+    def inp(ex, p):
+        return dict(index=sym(ex, p, "O:arg1", (0, 1)), iend=sym(ex, p, "O:arg1", (0, 2)), start=sym(ex, p, "O:arg1", (1,)), end=sym(ex, p, "O:arg1", (2,)), olen=sym(ex, p, "O:arg1", (3,)))
+
+    def assume(ex, p):
+        i = inp(ex, p)
+        return [("start <= iter.index <= iter.end <= end <= original_len", AND("(bvule %s %s)" % (i["start"], i["index"]), "(bvule %s %s)" % (i["index"], i["iend"]), "(bvule %s %s)" % (i["iend"], i["end"]), "(bvule %s %s)" % (i["end"], i["olen"])))]
+
+    def on_return(ex, p):
+        i = inp(ex, p)
+        drops, moves = events(p, "drop_elements_range"), events(p, "move_elements_at")
+        obs = [("exactly one range drop and one tail move", "true" if len(drops) == 1 and len(moves) == 1 and len(p.events) == 2 else "false")]
+        if len(drops) == 1 and len(moves) == 1:
+            a, b = ex.as_bv(drops[0][2][1])[1], ex.as_bv(drops[0][2][2])[1]
+            obs.append(("drops exactly the not yet yielded items [iter.index, iter.end)", AND("(= %s %s)" % (a, i["index"]), "(= %s %s)" % (b, i["iend"]))))
+            src, dst, cnt = (ex.as_bv(moves[0][2][k])[1] for k in (1, 2, 3))
+            obs.append(("moves the tail [range end, original_len) down to the range start", AND("(= %s %s)" % (src, i["end"]), "(= %s %s)" % (dst, i["start"]), "(= %s (bvsub %s %s))" % (cnt, i["olen"], i["end"]))))
+            obs.append(("the vector's len is not restored before the destructors and the move ran", "true" if drops[0][3] is None and moves[0][3] is None else "false"))
+            obs.append(("destructors run before the tail is moved", "true" if p.events.index(drops[0]) < p.events.index(moves[0]) else "false"))
+        fin = ex.read_cell(p, "O:vecraw", (2,), "usize")[1]
+        obs.append(("len ends as original_len - (end - start)", "(= %s (bvsub %s (bvsub %s %s)))" % (fin, i["olen"], i["end"], i["start"])))
+        return obs
+
+    def on_panic(ex, p):
+        return [("never panics for a well-formed drain", "false")]
+    return Spec("Drain::drop", "src/ops/drain.rs", "drop", ["C02", "C06"], assume, on_return, on_panic, "tail / length arithmetic and ordering of Drain::drop for all 64-bit cursor values")
+
+
+def spec_handle_new(kind):
+    """Pop::new / Remove::new / SwapRemove::new / Drain::new: the length is lowered when the handle is created"""
+    file_part = {"Pop": "src/ops/pop.rs", "Remove": "src/ops/remove.rs", "SwapRemove": "src/ops/swap_remove.rs", "Drain": "src/ops/drain.rs"}[kind]
+
+    def assume(ex, p):
+        ln = sym(ex, p, "O:vecraw", (2,))
+        if kind == "Pop":
+            return [("non-empty vector", "(bvugt %s %s)" % (ln, bvconst(0)))]
+        if kind == "Drain":
+            return [("start <= end <= len", AND("(bvule %s %s)" % ("a2", "a3"), "(bvule %s %s)" % ("a3", ln)))]
+        return [("index < len", "(bvult %s %s)" % ("a2", ln))]
+
+    def on_return(ex, p):
+        ln = sym(ex, p, "O:vecraw", (2,))
+        fin = ex.read_cell(p, "O:vecraw", (2,), "usize")[1]
+        if kind == "Pop":
+            return [("len is lowered by one at creation", "(= %s (bvsub %s %s))" % (fin, ln, bvconst(1)))]
+        for n in ("a2", "a3"):
+            p.decls.setdefault(n, "(_ BitVec 64)")
+        want = "a2"
+        return [("len is lowered to the %s at creation" % ("range start" if kind == "Drain" else "index"), "(= %s %s)" % (fin, want))]
+
+    def on_panic(ex, p):
+        return [("never panics for valid arguments", "false")]
+    return Spec(kind + "::new", file_part, "new", ["C07"], assume, on_return, on_panic, "length lowering at handle creation (what makes mem::forget a pure leak), all 64-bit values")
+
+
+def spec_get(method):
+    def on_return(ex, p):
+        ln = sym(ex, p, "O:arg1", ("$len",))
+        idx = p.cells[("L:_2", ())][1]
+        d = ex.read_cell(p, "L:_0", ("discr",), "isize")[1]
+        calls = [e for e in p.events if e[0] == "get_unchecked"]
+        obs = [("%s(i) is Some exactly for i < len" % method, "(= (= %s %s) (bvult %s %s))" % (d, bvconst(1), idx, ln))]
+        if calls:
+            obs.append(("the element is fetched at exactly the requested index, only when in range", AND("(bvult %s %s)" % (idx, ln), "(= %s %s)" % (ex.as_bv(calls[0][2][1])[1], idx))))
+        return obs
+
+    def on_panic(ex, p):
+        return [("never panics", "false")]
+    return Spec("AnyVec::" + method, "src/any_vec.rs", method, ["C01", "C13"], None, on_return, on_panic, "bounds test of the Option-returning accessors")
+
+
 def all_specs():
     return [spec_into_range(), spec_reserve("reserve", "expand"), spec_reserve("reserve_exact", "expand_exact"), spec_shrink("shrink_to"), spec_shrink("shrink_to_fit"),
-            spec_index_check(), spec_heap_resize(), spec_heap_expand(), spec_stack_build(), spec_stackn_build(), spec_iter_len("len"), spec_iter_len("size_hint"),
+            spec_index_check(), spec_get("get"), spec_get("get_mut"), spec_drain_drop(),
+            spec_handle_new("Pop"), spec_handle_new("Remove"), spec_handle_new("SwapRemove"), spec_handle_new("Drain"), spec_heap_resize(), spec_heap_expand(), spec_stack_build(), spec_stackn_build(), spec_iter_len("len"), spec_iter_len("size_hint"), spec_iter_step("next"), spec_iter_step("next_back"),
             spec_bytes("as_bytes"), spec_bytes("as_bytes_mut"), spec_bytes("spare_bytes_mut")]
 
 
